@@ -66,6 +66,7 @@ typedef struct {
 } applied_t;
 
 static vf_errlog elog;
+static int g_shared_before;	/* run_once: earlier calibration, same kit */
 
 /* small unrelated calibration */
 static int add_unrelated(vnacal_t *vcp, const char *name, int variant)
@@ -116,6 +117,41 @@ static void run_once(cs_scenario *sc, int before, int after, int dk,
 	snprintf(out->why, sizeof(out->why), "make params: %s",
 		elog.count ? elog.msg[0] : "");
 	goto out;
+    }
+    if (g_shared_before) {
+	/* the same calibration kit (same parameter handles) used first for
+	   another calibration at other frequencies of the same vnacal_t */
+	static cs_scenario pre;
+	const cs_vna *v = &sc->vna;
+	double fv[2];
+	pre = *sc;
+	/* the span of the kit's own frequency grid */
+	double glo = v->f[0], ghi = v->f[v->nf - 1];
+	for (int q = 0; q < sc->nparam; ++q)
+	    if (sc->param[q].kind == CSP_VECTOR) {
+		glo = sc->param[q].lo * v->f[0];
+		ghi = sc->param[q].hi * v->f[v->nf - 1];
+		break;
+	    }
+	if (g_shared_before == 1) {	/* top of the kit's grid */
+	    fv[0] = glo + 0.93 * (ghi - glo);
+	    fv[1] = glo + 0.99 * (ghi - glo);
+	} else {			/* both ends of the kit's grid */
+	    fv[0] = glo + 0.01 * (ghi - glo);
+	    fv[1] = glo + 0.99 * (ghi - glo);
+	}
+	cs_make_vna_f(&pre.vna, v->type, v->rows, v->cols, 2, fv,
+		v->variant);
+	vnacal_new_t *vnp0 = cs_build(vcp, &pre);
+	if (vnp0 == NULL || vnacal_new_solve(vnp0) != 0 ||
+		vnacal_add_calibration(vcp, "earlier", vnp0) < 0) {
+	    snprintf(out->why, sizeof(out->why), "earlier calibration with "
+		    "the same kit: %.120s", elog.count ? elog.msg[0] : "");
+	    if (vnp0 != NULL)
+		vnacal_new_free(vnp0);
+	    goto out;
+	}
+	vnacal_new_free(vnp0);
     }
     vnp = cs_build(vcp, sc);
     r->transitions += sc->nstd + 2;
@@ -406,6 +442,43 @@ static void run(int tier, long idx, vf_result *r)
 			"added before and %d after", b, a);
 		compare(r, "unrelated", tname, &A, &B, P, what);
 	    }
+	/* the kit itself is shared: standards given as vector parameters
+	   on their own 7-point grid, used first by another calibration of
+	   the same vnacal_t at other frequencies */
+	{
+	    static cs_scenario kit;
+	    static applied_t KA;
+	    /* calibration band in the middle of the kit's grid, which has
+	       its points at 0.9 + k 13/60 GHz: 0.9, 1.117, 1.333, 1.55,
+	       1.767, 1.983, 2.2 */
+	    static const double fv[4] = { 1.36e9, 1.50e9, 1.62e9, 1.75e9 };
+	    memset(&kit, 0, sizeof(kit));
+	    cs_make_vna_f(&kit.vna, types[t], rows, cols, 4, fv, netv);
+	    if (cs_recipe(&kit, recipe, 0, 0, 0, 1) != 0)
+		break;
+	    for (int q = 0; q < kit.nparam; ++q)
+		if (kit.param[q].kind == CSP_VECTOR) {
+		    kit.param[q].lo = 0.9e9 / fv[0];
+		    kit.param[q].hi = 2.2e9 / fv[3];
+		}
+	    kit.noise = noise;
+	    /* rough tabulated data: the interpolated value depends on the
+	       window, which must not depend on the history */
+	    cs_vector_wiggle = 0.05;
+	    run_once(&kit, 0, 0, 0, &KA, r);
+	    for (int mode = 1; mode <= 2; ++mode) {
+		var = kit;
+		g_shared_before = mode;
+		run_once(&var, 0, 0, 0, &B, r);
+		g_shared_before = 0;
+		snprintf(what, sizeof(what), "vector-parameter kit used "
+			"first by another calibration at %s of the same "
+			"vnacal_t", mode == 1 ? "the top of the band" :
+			"both ends of the band");
+		compare(r, "shared-kit", tname, &KA, &B, P, what);
+	    }
+	    cs_vector_wiggle = 0.0;
+	}
 	break;
 
     case K_PERFREQ: {
@@ -416,6 +489,8 @@ static void run(int tier, long idx, vf_result *r)
 	cs_make_vna_f(&all.vna, types[t], rows, cols, 3, fv, 2);
 	cs_recipe(&all, recipe, 0, 0, 0, 1);	/* vector standards */
 	all.noise = noise;
+	/* rough tabulated data, so that the interpolation window matters */
+	cs_vector_wiggle = 0.05;
 	run_once(&all, 0, 0, 1, &whole, r);
 	for (int k = 0; k < 3; ++k) {
 	    memset(&var, 0, sizeof(var));
@@ -438,6 +513,7 @@ static void run(int tier, long idx, vf_result *r)
 		    "vs frequency %g Hz solved alone", fv[k]);
 	    compare(r, "perfreq", tname, &A, &B, P, what);
 	}
+	cs_vector_wiggle = 0.0;
 	break;
     }
 
@@ -537,6 +613,8 @@ static void run(int tier, long idx, vf_result *r)
 	    g_worst < 1e-12 ? "<1e-12" : g_worst < 1e-10 ? "<1e-10" :
 	    g_worst <= TOL ? "<=1e-9" : ">1e-9");
 done:
+    cs_vector_wiggle = 0.0;
+    g_shared_before = 0;
     vf_exec_end(r, mark);
 }
 
